@@ -653,15 +653,14 @@ namespace detail {
                 constexpr auto star_pos = stt().find("[*]");
                 constexpr auto arrow_pos = stt().rfind("->", star_pos);
                 constexpr auto endl_before_pos = stt().rfind("\n", star_pos);
-                constexpr auto state_pos = stt().rfind(state_name(), arrow_pos);
+                // the source of the line is everything between the start of the line and the arrow
+                constexpr auto line_pos = endl_before_pos == std::string::npos ? 0 : endl_before_pos + 1;
 
                 if constexpr (
                     star_pos != std::string::npos &&
                     arrow_pos != std::string::npos &&
-                    arrow_pos > endl_before_pos &&
-                    state_pos != std::string::npos &&
-                    state_pos > endl_before_pos &&
-                    cleanup_token(stt().substr(state_pos, arrow_pos - state_pos)) == state_name())
+                    (endl_before_pos == std::string::npos || arrow_pos > endl_before_pos) &&
+                    cleanup_token(stt().substr(line_pos, arrow_pos - line_pos)) == state_name())
                 {
                     return
                         typename ::boost::mpl::push_back<
